@@ -133,7 +133,7 @@ def audit(prop_id, modules):
     open(f, "w").write(body)
     rc, out = sh(["lake", "env", "lean", f], cwd=LEAN, timeout=1800)
     axioms = {}
-    for m in re.finditer(r"'([^']+)' (does not depend on any axioms|depends on axioms: \[([^\]]*)\])", out):
+    for m in re.finditer(r"^'(\S+)' (does not depend on any axioms|depends on axioms: \[([^\]]*)\])", out, re.M):
         axioms[m.group(1)] = [] if m.group(3) is None else [a.strip() for a in m.group(3).replace("\n", " ").split(",")]
     for t in thms:
         if t not in axioms:
